@@ -331,7 +331,7 @@ var amountTraits = []struct{ name, val string }{
 	{"2^64+1", "18446744073709551617"}, {"10^40", "10000000000000000000000000000000000000000"}, {"-10^30", "-1000000000000000000000000000000"},
 }
 
-var currencyTraits = []struct{ name, val string }{{"VT", "VT"}, {"ETH", "ETH"}, {"unknown", "XYZ"}, {"empty", ""}}
+var currencyTraits = []struct{ name, val string }{{"VT", "VT"}, {"ETH", "ETH"}, {"unknown", "XYZ"}, {"empty", ""}, {"TTC", "TTC"}, {"BTC", "BTC"}}
 
 // isAmountObj recognises {"currency":..,"value":..}.
 func isAmountObj(v interface{}) (map[string]interface{}, bool) {
@@ -415,7 +415,7 @@ func (wm *warm) hostileVariants(base hist.TxSpec, rng *rand.Rand, perField int) 
 				tr := amountTraits[t]
 				add(f, "amount="+tr.name, func(p map[string]interface{}) { p[f].(map[string]interface{})["value"] = tr.val })
 			}
-			for _, t := range pickN(rng, len(currencyTraits), 2) {
+			for _, t := range pickN(rng, len(currencyTraits), 2+perField) {
 				tr := currencyTraits[t]
 				add(f, "currency="+tr.name, func(p map[string]interface{}) { p[f].(map[string]interface{})["currency"] = tr.val })
 			}
